@@ -28,8 +28,8 @@ def env():
 
 
 def sh(cmd, cwd=None, timeout=900):
-    p = subprocess.run(cmd, cwd=cwd, env=env(), shell=isinstance(cmd, str), stdout=subprocess.PIPE, stderr=subprocess.STDOUT, text=True, timeout=timeout)
-    return p.returncode, p.stdout
+    p = subprocess.run(cmd, cwd=cwd, env=env(), shell=isinstance(cmd, str), stdout=subprocess.PIPE, stderr=subprocess.STDOUT, timeout=timeout)
+    return p.returncode, p.stdout.decode("utf-8", "replace")
 
 
 def validate(src, mid):
